@@ -39,7 +39,9 @@ Lib ==
      [data |-> << Data("y", "const", "c2y", "", ""), Data("x", "kwarg", "", "x", "") >>,
       tpl  |-> << For("i", "xs", << Slot("a", TRUE, FALSE, << <<"k", V("i")>> >>,
                                          << T("L4"), Slot("b", FALSE, FALSE, <<>>, << T("L5") >>) >>) >>),
-                  Var("y"), Var("x"), Isf("default"), Isf("b") >>],
+                  Var("y"), Var("x"), Isf("default"), Isf("b"),
+                  \* the same slot name again WITHOUT the default flag (flags are per tag)
+                  Slot("a", FALSE, FALSE, <<>>, << T("L13") >>) >>],
      \* c3: named slots with slot data, same slot name nested in another slot's default
      [data |-> << Data("x", "kwarg", "", "x", "") >>,
       tpl  |-> << Slot("a", FALSE, FALSE, << <<"k", V("x")>> >>, << T("L6"), Var("x") >>),
@@ -50,8 +52,9 @@ Lib ==
      [data |-> << Data("inj", "inject", "", "p", ""), Data("ik", "injkeys", "", "p", "") >>,
       tpl  |-> << [t |-> "fld", x |-> "inj", f |-> "f"], Var("ik"),
                   [t |-> "provide", key |-> "p", kw |-> << <<"f", C("c4in")>>, <<"g", C("c4g")>> >>,
-                   a |-> << Slot("a", TRUE, FALSE, <<>>, << Comp(5, <<>>, FALSE, "none", <<>>) >>) >>],
-                  Comp(5, <<>>, FALSE, "none", <<>>) >>],
+                   a |-> << Comp(13, <<>>, FALSE, "none", <<>>),
+                            Slot("a", TRUE, FALSE, <<>>, << Comp(13, <<>>, FALSE, "none", <<>>) >>) >>],
+                  Comp(13, <<>>, FALSE, "none", <<>>) >>],
      \* c5: leaf with a required default slot; consumer with a default
      [data |-> << Data("z", "const", "c4z", "", ""), Data("inj", "inject", "", "p", "none") >>,
       tpl  |-> << T("L8"), Slot("a", TRUE, TRUE, <<>>, <<>>), Var("z"), [t |-> "fld", x |-> "inj", f |-> "f"] >>]
@@ -68,9 +71,9 @@ Lib ==
      [data |-> << Data("cid", "id", "", "", "") >>,
       tpl  |-> << Var("cid"), Comp(9, <<>>, FALSE, "none", <<>>) >>],
      \* c9: element root with a nested component, plus roots produced in a loop
-     [data |-> << Data("cid", "id", "", "", ""), Data("ys", "clist", "r", "", "") >>,
+     [data |-> << Data("cid", "id", "", "", ""), Data("ys", "clist", "r", "", ""), Data("me", "self", "", "", "") >>,
       tpl  |-> << Var("cid"), El("E", << Comp(10, <<>>, FALSE, "none", <<>>) >>),
-                  For("i", "ys", << El("F", <<>>) >>) >>],
+                  For("i", "ys", << El("F", <<>>) >>), [t |-> "fld", x |-> "me", f |-> "id"] >>],
      \* c10: text-only component (no root element at all)
      [data |-> << Data("cid", "id", "", "", "") >>,
       tpl  |-> << Var("cid"), T("L11") >>],
@@ -78,14 +81,25 @@ Lib ==
      \* with-bindings, page variables) and renders a slot whose default reads them too
      [data |-> << Data("z", "const", "c11z", "", "") >>,
       tpl  |-> << Var("w"), Var("i"), Var("y"), [t |-> "fld", x |-> "forloop", f |-> "counter"], Var("z"),
-                  Slot("a", TRUE, FALSE, <<>>, << Var("w"), Var("x") >>) >>]
+                  Slot("a", TRUE, FALSE, <<>>, << Var("w"), Var("x") >>) >>],
+     \* ---- C14: TWO root-level component children; the first one hands the parent's slot on
+     \* (in isolated mode a component in the page's fill is then rendered as a render root of its own,
+     \* while the second child is still waiting)
+     [data |-> << Data("cid", "id", "", "", "") >>,
+      tpl  |-> << Var("cid"),
+                  Comp(7, <<>>, FALSE, "fills", << Fill(C("a"), "", "", << Slot("a", FALSE, FALSE, <<>>, <<>>) >>) >>),
+                  Comp(9, <<>>, FALSE, "none", <<>>) >>],
+     \* ---- C05 consumer leaf: inject with a default, no slot (never raises)
+     [data |-> << Data("inj", "inject", "", "p", "none"), Data("iq", "inject", "", "q", "noq") >>,
+      tpl  |-> << T("L12"), [t |-> "fld", x |-> "inj", f |-> "f"], [t |-> "fld", x |-> "iq", f |-> "f"] >>]
   >>
 
 Ctx == << <<"x", Str("px")>>, <<"y", Str("py")>>, <<"xs", [k |-> "l", v |-> <<"i1", "i2">>]>>,
+          <<"fl", [k |-> "l", v |-> <<"", "f1", "">>]>>,
           <<"on", Str("1")>>, <<"off", Str("")>> >>
 
 \* which components the page may use
-CompSet == CASE Alphabet = "provide" -> {2, 4, 5} [] Alphabet = "elems" -> {6, 7, 8, 9}
+CompSet == CASE Alphabet = "provide" -> {2, 4, 13} [] Alphabet = "elems" -> {6, 7, 8, 9, 10, 12}
              [] Alphabet = "scope" -> {1, 2, 3, 11} [] OTHER -> {1, 2, 3, 5}
 
 \* ---- page construction ----------------------------------------------------
@@ -104,7 +118,7 @@ LeafTokens ==
      [] Alphabet = "elems" -> {El("x", <<>>)})
 OpenTokens ==
   {Comp(c, <<>>, FALSE, b, <<>>) : c \in CompSet, b \in {"impl", "fills"}} \cup
-  (CASE Alphabet = "slots" -> {[t |-> "if", x |-> "on", a |-> <<>>, b |-> <<>>], For("i", "xs", <<>>)}
+  (CASE Alphabet = "slots" -> {[t |-> "if", x |-> "on", a |-> <<>>, b |-> <<>>], For("i", "xs", <<>>), For("i", "fl", <<>>)}
      [] Alphabet = "scope" -> {For("i", "xs", <<>>), For("x", "xs", <<>>),
                                [t |-> "with", x |-> "w", e |-> C("kw"), a |-> <<>>],
                                [t |-> "with", x |-> "x", e |-> C("kx"), a |-> <<>>],
@@ -140,9 +154,15 @@ Init == stack = << Frame(Root) >> /\ n = 0
 
 AddKid(node) == stack' = [stack EXCEPT ![Len(stack)].kids = Append(@, node)]
 
-Leaf == /\ n < MaxNodes /\ ~InFillsBody(Len(stack))
-        /\ \E tok \in LeafTokens :
-             AddKid(IF tok.t = "text" THEN T("t" \o ToString(n + 1)) ELSE tok)
+\* a complete conditional fill (its condition is the loop variable, so the same tag yields a fill in
+\* some iterations and none in others)
+CondFills == IF Alphabet = "slots"
+             THEN {[t |-> "if", x |-> "i", a |-> << Fill(C(s), "", "", << T("cf") >>) >>, b |-> <<>>] : s \in {"a", "default"}}
+             ELSE {}
+Leaf == /\ n < MaxNodes
+        /\ \/ ~InFillsBody(Len(stack)) /\ \E tok \in LeafTokens :
+                AddKid(IF tok.t = "text" THEN T("t" \o ToString(n + 1)) ELSE tok)
+           \/ InFillsBody(Len(stack)) /\ \E tok \in CondFills : AddKid(tok)
         /\ n' = n + 1
 
 Open == /\ n < MaxNodes
@@ -218,13 +238,23 @@ Ctx2 == << <<"x", Str("qx")>>, <<"y", Str("")>>, <<"xs", [k |-> "l", v |-> <<"j1
 \*  - NonInterference (C03): in isolated mode a page that passes nothing (reads no variable itself)
 \*    renders the same whatever the page context holds - output never depends on a variable that
 \*    was not explicitly passed.
+RECURSIVE HasCondFill(_, _)
+HasCondFill(nodes, i) ==
+  IF i > Len(nodes) THEN FALSE
+  ELSE LET nd == nodes[i] IN
+       \/ (nd.t = "if" /\ nd.a # <<>> /\ nd.a[1].t = "fill")
+       \/ ("a" \in DOMAIN nd /\ HasCondFill(nd.a, 1))
+       \/ HasCondFill(nodes, i + 1)
+
 SemanticsTheorems ==
   Complete /\ HasComp(stack[1].kids, 1) =>
     LET p == Prog(Mode, <<>>)
         r == Run(p)
         q == Run([p EXCEPT !.page = AddFill(p.page, 1)]) IN
     /\ r.err \in {"", "TemplateSyntaxError", "KeyError"}
-    /\ (r.zone \/ q.zone \/ (r.out = q.out /\ r.err = q.err))
+    \* (a body whose fills are all conditional may yield no fill at all and then counts as implicit
+    \*  default content - an additional fill changes that, so such pages are outside the theorem)
+    /\ (HasCondFill(p.page, 1) \/ r.zone \/ q.zone \/ (r.out = q.out /\ r.err = q.err))
     /\ (Mode = "isolated" /\ ~ReadsVar(p.page, 1)) =>
           LET o == Run([p EXCEPT !.ctx = Ctx2]) IN (r.zone \/ o.zone \/ (r.out = o.out /\ r.err = o.err))
 
